@@ -3,7 +3,7 @@ import re
 import ps, oracle, countlib
 
 LEVEL = "proof"
-THEOREMS = ["C15_printed_is_counted", "C15_small_strings_ok"]
+THEOREMS = ["C15_printed_is_counted", "C15_small_strings_ok", "C15_kernel_decode_spec"]
 ASSUMPTIONS = [
     "the per-byte lemma (printed = counted = constellations of the byte, ordered by first member) and the table strings are proved; batching (64 KiB), segment order and the ostream layer are tied by byte-exact correspondence of captured stdout only",
     "kernel hypothesis as C04/C05",
